@@ -177,6 +177,44 @@ static void do_misc(Rng& g, const Path64& p) {
   std::string bs = S(b.left) + " " + S(b.top) + " " + S(b.right) + " " + S(b.bottom);
   emitM("bounds.model", "BOUNDS " + S(p), bs);
   emitS("bounds.spec", "SPEC_BOUNDS " + S(p) + " " + bs);
+  // the other overloads of GetBounds (PathD, Paths64, PathsD and the converting <T,T2> templates): same min/max clause; the
+  // double results are integer-valued for integer input below 2^53 and are handed to the Lean judge as integers
+  {
+    bool small = true;
+    for (auto& q : p) if (std::llabs(q.x) > ((int64_t)1 << 52) || std::llabs(q.y) > ((int64_t)1 << 52)) small = false;
+    auto judgeD = [&](const char* label, const RectD& r, const Path64& all) {
+      if (all.empty()) {
+        const double mx = (std::numeric_limits<double>::max)(), lo = std::numeric_limits<double>::lowest();
+        if (!(r.left == mx && r.top == mx && r.right == lo && r.bottom == lo)) emitF(label, "empty input: invalid rect expected");
+        stat("bounds.D.empty");
+        return;
+      }
+      if (r.left != std::floor(r.left) || r.top != std::floor(r.top) || r.right != std::floor(r.right) || r.bottom != std::floor(r.bottom) ||
+          std::fabs(r.left) > 9.1e15 || std::fabs(r.top) > 9.1e15 || std::fabs(r.right) > 9.1e15 || std::fabs(r.bottom) > 9.1e15) {
+        emitF(label, "bounds of integer-valued input are not integers of the input's magnitude: " + S(all) + " -> " + hexd(r.left) + " " + hexd(r.top) + " " + hexd(r.right) + " " + hexd(r.bottom));
+        return;
+      }
+      emitS(label, "SPEC_BOUNDS " + S(all) + " " + S((int64_t)r.left) + " " + S((int64_t)r.top) + " " + S((int64_t)r.right) + " " + S((int64_t)r.bottom));
+    };
+    if (small) {
+      PathD pd; for (auto& q : p) pd.emplace_back((double)q.x, (double)q.y);
+      judgeD("bounds.spec.PathD", GetBounds(pd), p);
+      judgeD("bounds.spec.PathD_from_Path64", GetBounds<double, int64_t>(p), p);
+      // a second path: the mirror image through the origin (all signs flipped), so all-negative inputs occur as often as all-positive ones
+      Path64 m; for (auto& q : p) m.emplace_back(-q.x, -q.y);
+      PathD md; for (auto& q : m) md.emplace_back((double)q.x, (double)q.y);
+      judgeD("bounds.spec.PathD", GetBounds(md), m);
+      Paths64 two{p, m}; PathsD twoD{pd, md};
+      Path64 all = p; all.insert(all.end(), m.begin(), m.end());
+      judgeD("bounds.spec.PathsD", GetBounds(twoD), all);
+      judgeD("bounds.spec.PathsD", GetBounds(PathsD{md}), m);
+      judgeD("bounds.spec.PathsD_from_Paths64", GetBounds<double, int64_t>(Paths64{m}), m);
+      Rect64 b2 = GetBounds(two);
+      if (!all.empty()) emitS("bounds.spec.Paths64", "SPEC_BOUNDS " + S(all) + " " + S(b2.left) + " " + S(b2.top) + " " + S(b2.right) + " " + S(b2.bottom));
+      Rect64 b3 = GetBounds<int64_t, double>(md);
+      if (!m.empty()) emitS("bounds.spec.Path64_from_PathD", "SPEC_BOUNDS " + S(m) + " " + S(b3.left) + " " + S(b3.top) + " " + S(b3.right) + " " + S(b3.bottom));
+    }
+  }
   int64_t dx = coord(g, (int)(g.next() % 5)), dy = coord(g, (int)(g.next() % 5));
   Path64 t = TranslatePath(p, dx, dy);
   emitM("translate.model", "TRANSLATE " + S(dx) + " " + S(dy) + " " + S(p), S(t));
